@@ -63,6 +63,11 @@ def hdiff_case(draw):
     muts = draw(st.lists(st.tuples(st.sampled_from(["sds_value", "sds_value", "vd_value", "gr_value", "sds_attr",
                                                      "add_sds", "vd_attr", "sd_gattr", "sd_gattr"]),
                                    st.integers(0, 60), st.integers(0, 400)), min_size=1, max_size=3))
+    if len(base["objs"]) >= 18 and draw(st.booleans()):
+        # many objects: a run of single-value changes in consecutive datasets around the sizes at which the tools'
+        # object tables grow (20, 40, ...), so that the entry next to a growth step is among the changed ones
+        start = draw(st.sampled_from([12, 14, 16, 18, 32, 34, 36, 38]))
+        muts = [("sds_value", start + j, draw(st.integers(0, 400))) for j in range(8)]
     return {"family": "hdiff", "file": base, "mutations": [list(m) for m in muts]}
 
 
